@@ -2,7 +2,7 @@
    Statements only; proofs in Proofs/LoaderProofs.v.  What is proved here is the
    framing half (see the evidence/notes for what remains correspondence-only:
    validator = specification decoder). *)
-From DV Require Import Lib.Base Wire.Body Wire.Message Spec.Codec Wire.HeaderEdit Proofs.LoaderProofs Proofs.CodecWf Proofs.CodecRoundtrip Proofs.BodyVbEq Proofs.BodyCursor Proofs.BodyComplete Proofs.CodecMessage Proofs.LoaderComplete Proofs.BodyLocal Proofs.Utf8Proofs Proofs.BodySound Proofs.LoaderSound.
+From DV Require Import Lib.Base Wire.Body Wire.Message Spec.Codec Wire.HeaderEdit Proofs.LoaderProofs Proofs.CodecWf Proofs.CodecRoundtrip Proofs.BodyVbEq Proofs.BodyCursor Proofs.BodyComplete Proofs.CodecMessage Proofs.LoaderComplete Proofs.BodyLocal Proofs.Utf8Proofs Proofs.BodySound Proofs.LoaderSound Proofs.WireClean Proofs.WireClean2.
 From Coq Require Import ZArith.
 Local Open Scope N_scope.
 
@@ -77,8 +77,8 @@ Proof. exact validate_body_complete. Qed.
 Print Assumptions C01_body_complete_partial.
 
 (* COMPLETENESS of the loader: every specification-valid message -- the canonical
-   serialisation E of a well-formed abstract message m ([wf_msg], plus the wire
-   premises [wire_ok]) -- followed by ANY bytes is framed as complete by the
+   serialisation E of a well-formed abstract message m ([wf_msg]; the former wire
+   premises [wire_ok] are now derived from it, Proofs/WireClean.v) -- followed by ANY bytes is framed as complete by the
    loader model and accepted, and the message it queues is exactly E (header and
    body slices, one loaded header field per field of m with its code, signature
    and encoded value).  Together with C02_roundtrip (E decodes to m) this is the
@@ -86,7 +86,6 @@ Print Assumptions C01_body_complete_partial.
    property as a theorem about the model. *)
 Theorem C01_complete : forall m rest avail,
   wf_msg m = true ->
-  wire_ok (fields_val (s_le m) (s_fields m)) = true -> forallb wire_ok (s_body m) = true ->
   spec_nfds (s_fields m) <= avail ->
   let E := spec_encode_message m in
   have_message DBUS_MAXIMUM_MESSAGE_LENGTH (E ++ rest) = HaveOk (s_le m) (m_flen m) (m_hlen m) (m_blen m) true /\
@@ -94,17 +93,17 @@ Theorem C01_complete : forall m rest avail,
     load_message (s_le m) (m_flen m) (m_hlen m) (m_blen m) avail (E ++ rest)
       = inl (mkMsg (firstn (N.to_nat (m_hlen m)) E) (m_bodyb m) hs (spec_nfds (s_fields m))) /\
     firstn (N.to_nat (m_hlen m)) E ++ m_bodyb m = E.
-Proof. exact loader_complete. Qed.
+Proof. exact loader_complete_clean. Qed.
 Print Assumptions C01_complete.
 
 (* dbus_message_demarshal on a valid message (optionally followed by fewer than 16 bytes) *)
 Theorem C01_demarshal_complete : forall m rest,
-  wf_msg m = true -> wire_ok (fields_val (s_le m) (s_fields m)) = true -> forallb wire_ok (s_body m) = true ->
+  wf_msg m = true ->
   spec_nfds (s_fields m) = 0 -> nlen rest < 16 ->
   exists hs, Forall2 (hf_ok (s_le m)) (s_fields m) hs /\
     demarshal (spec_encode_message m ++ rest) = DemMsg (loaded_msg m hs) /\
     m_header (loaded_msg m hs) ++ m_body (loaded_msg m hs) = spec_encode_message m.
-Proof. exact demarshal_complete. Qed.
+Proof. exact demarshal_complete_clean. Qed.
 Print Assumptions C01_demarshal_complete.
 
 (* SOUNDNESS of the loader model *)
@@ -138,6 +137,54 @@ Theorem C01_sound_decodes : forall max le fl hl bl fds d msg,
 Proof. exact load_message_decodes. Qed.
 Print Assumptions C01_sound_decodes.
 
+(* THE CHARACTERISATION (Proofs/WireClean2.v).  [wf_msg_x] is [wf_msg] with exactly the three
+   recorded deviations built in (wfx instead of wfb: FD65; validate_bus_name for DESTINATION and
+   SENDER: F2; validate_signature for the body signature: F11), and [wf_msg m <-> wf_msg_x m /\ msg_strict m].
+   For a framed buffer of bytes the loader model accepts EXACTLY the canonical encodings of loosely
+   well-formed messages that ask for no more descriptors than are available. *)
+Theorem C01_characterisation : forall le fl hl bl fds d,
+  all_bytes d = true ->
+  have_message max_message d = HaveOk le fl hl bl true ->
+  ((exists msg, load_message le fl hl bl fds d = inl msg) <->
+   (exists m, firstn (N.to_nat (hl + bl)) d = spec_encode_message m /\ wf_msg_x m = true /\ spec_nfds (s_fields m) <= fds)).
+Proof. exact loader_characterisation. Qed.
+Print Assumptions C01_characterisation.
+
+Theorem C01_wellformed_iff : forall m, wf_msg m = true <-> wf_msg_x m = true /\ msg_strict m = true.
+Proof. exact wf_msg_iff. Qed.
+Print Assumptions C01_wellformed_iff.
+
+(* loader model against the independent specification decoder, both directions *)
+Theorem C01_loader_vs_decoder : forall le fl hl bl fds d,
+  all_bytes d = true -> have_message max_message d = HaveOk le fl hl bl true ->
+  (forall m n, spec_decode_message d = Some (m, n) -> spec_nfds (s_fields m) <= fds ->
+     n = hl + bl /\ exists msg, load_message le fl hl bl fds d = inl msg /\ m_header msg ++ m_body msg = spec_encode_message m) /\
+  (forall msg, load_message le fl hl bl fds d = inl msg ->
+     exists m, m_header msg ++ m_body msg = spec_encode_message m /\ m_header msg ++ m_body msg = firstn (N.to_nat (hl + bl)) d /\
+               wf_msg_x m = true /\
+               (msg_strict m = true -> wf_msg m = true /\ spec_decode_message (m_header msg ++ m_body msg) = Some (m, hl + bl))).
+Proof. exact loader_vs_decoder. Qed.
+Print Assumptions C01_loader_vs_decoder.
+
+(* the specification decoder itself is canonical: it accepts a buffer exactly when the buffer is the
+   encoding of a well-formed message, and then returns that message (no two byte strings decode to the
+   same message, no byte string decodes to two messages) *)
+Theorem C01_decoder_sound : forall d m n, all_bytes d = true -> spec_decode_message d = Some (m, n) ->
+  firstn (N.to_nat n) d = spec_encode_message m /\ wf_msg m = true /\ n = nlen (spec_encode_message m).
+Proof. exact spec_decode_sound. Qed.
+Print Assumptions C01_decoder_sound.
+
+Theorem C01_decoder_iff : forall d m, all_bytes d = true ->
+  (spec_decode_message d = Some (m, nlen d) <-> d = spec_encode_message m /\ wf_msg m = true).
+Proof. exact spec_decode_iff. Qed.
+Print Assumptions C01_decoder_iff.
+
+(* body level without wire premises *)
+Theorem C01_body_complete : forall le vs sg, wfsb le vs 0 0 = true -> parse_sig sg = Some (map ty_of_val vs) ->
+  validate_body le (map ty_of_val vs) (encs le vs 0) = V_VALID.
+Proof. exact validate_body_complete_clean. Qed.
+Print Assumptions C01_body_complete.
+
 Theorem C01_sound_refuted_F2 : ~ load_message_sound_unrestricted.
 Proof. exact load_message_sound_unrestricted_refuted. Qed.
 Theorem C01_sound_refuted_FD65 : ~ load_message_sound_unrestricted.
@@ -167,3 +214,10 @@ Example ex_spec_accept : match spec_decode_message ex_msg with Some (_, 24) => T
 Proof. vm_compute. exact I. Qed.
 Example ex_reject : match demarshal (firstn 16 ex_msg ++ [5;1;117;0; 0;0;0;0]) with DemCorrupt _ => True | _ => False end.
 Proof. vm_compute. exact I. Qed.
+(* the hypotheses of the characterisation are met by that buffer, and by the recorded F2 witness
+   (loosely but not strictly well formed) *)
+Example ex_characterisation_hyps : all_bytes ex_msg = true /\ have_message max_message ex_msg = HaveOk true 8 24 0 true /\
+  (exists msg, load_message true 8 24 0 0 ex_msg = inl msg).
+Proof. split; [vm_compute; reflexivity|]. split; [vm_compute; reflexivity|]. eexists. vm_compute. reflexivity. Qed.
+Example ex_loose_not_strict : wf_msg_x f2_msg = true /\ wf_msg f2_msg = false /\ msg_strict f2_msg = false.
+Proof. repeat split; vm_compute; reflexivity. Qed.
